@@ -262,3 +262,83 @@ func indexTerms(ts []*Term, max int) []*Term {
 	}
 	return out
 }
+
+// ematch performs one round of trigger matching for hypotheses of the shape (g =>) forall a:Ref :: body with the
+// single trigger select(A, a), A closed: every closed term select(A, t) occurring in ground yields the instance a := t.
+func (u *Unit) ematch(hyps []*Term, ground []*Term) []*Term {
+	c := u.c
+	type ax struct {
+		guard *Term
+		q     *Term
+	}
+	byArr := map[*Term][]ax{}
+	var collect func(guard, q *Term)
+	collect = func(guard, q *Term) {
+		switch {
+		case q.Op == "forall" && len(q.Bound) == 1 && q.Bound[0].Sort == SRef && len(q.Pats) == 1 && len(q.Pats[0]) == 1:
+			p := q.Pats[0][0]
+			if p.Op == "select" && len(p.Args) == 2 && p.Args[1] == q.Bound[0] && !p.Args[0].open {
+				byArr[p.Args[0]] = append(byArr[p.Args[0]], ax{guard, q})
+			}
+		case q.Op == "=>" && hasQuant(q.Args[1]) && !hasQuant(q.Args[0]):
+			g := q.Args[0]
+			if guard != nil {
+				g = c.And(guard, g)
+			}
+			collect(g, q.Args[1])
+		case q.Op == "and":
+			for _, a := range q.Args {
+				if hasQuant(a) {
+					collect(guard, a)
+				}
+			}
+		}
+	}
+	for _, h := range hyps {
+		if hasQuant(h) {
+			collect(nil, h)
+		}
+	}
+	if len(byArr) == 0 {
+		return nil
+	}
+	var out []*Term
+	done := map[[2]int]bool{}
+	seen := map[int]bool{}
+	var walk func(t *Term)
+	walk = func(t *Term) {
+		if seen[t.id] {
+			return
+		}
+		seen[t.id] = true
+		if t.Op == "select" && len(t.Args) == 2 && !t.open {
+			for _, a := range byArr[t.Args[0]] {
+				k := [2]int{a.q.id, t.Args[1].id}
+				if done[k] {
+					continue
+				}
+				done[k] = true
+				m := map[*Term]*Term{a.q.Bound[0]: t.Args[1]}
+				body := c.Subst(a.q.Args[0], m)
+				if a.guard != nil {
+					body = c.Implies(a.guard, body)
+				}
+				if !body.IsTrue() && !body.open {
+					out = append(out, body)
+				}
+			}
+		}
+		for _, x := range t.Args {
+			walk(x)
+		}
+	}
+	for _, g := range ground {
+		walk(g)
+	}
+	// second round over the instances themselves (nested objects)
+	n := len(out)
+	for i := 0; i < n; i++ {
+		walk(out[i])
+	}
+	return out
+}
